@@ -71,20 +71,21 @@ def run_profile(scratch, nat, release, prop, tier, qs, info):
         findings += Q.check_summary(s, profile, qs, timeout_ms=timeout_ms, seed=V.seed(),
                                     want_c05=(prop == "C05"), want_c17=(prop == "C17"))
     if prop == "C17":
-        findings += builtin_and_optional_panics(mf, oc, scratch, profile, qs, timeout_ms, info)
+        findings += builtin_and_optional_panics(mf, oc, scratch, profile, qs, timeout_ms, info, nat, release, tier)
     findings = [f for f in findings if f.prop == prop]
     log("  [%s] %d obligations so far, %d candidate findings, %.1fs" % (profile, qs.obligations, len(findings), time.time() - t))
     # native replay of every witness
-    if findings:
-        vecs = [("w%d" % i, f.native_op, f.witness) for i, f in enumerate(findings)]
+    todo = [f for f in findings if not getattr(f, "preconfirmed", False)]
+    if todo:
+        vecs = [("w%d" % i, f.native_op, f.witness) for i, f in enumerate(todo)]
         res = nat.eval(vecs, release)
-        for i, f in enumerate(findings):
+        for i, f in enumerate(todo):
             f.native = list(res["w%d" % i])
             f.confirmed = confirms(f)
     return findings, summaries
 
 
-def builtin_and_optional_panics(mf, oc, scratch, profile, qs, timeout_ms, info):
+def builtin_and_optional_panics(mf, oc, scratch, profile, qs, timeout_ms, info, nat, release, tier):
     """C17 also covers the kernels of C14 (numeric built-ins) and C12 (optional instructions): no feasible path panics"""
     import builtinkernels as B
     sys.path.insert(0, HERE)
@@ -119,6 +120,35 @@ def builtin_and_optional_panics(mf, oc, scratch, profile, qs, timeout_ms, info):
             f.native_op = "B:" + m
             f.predicted = ["PANIC"]
             out.append(f)
+    # string methods with index arithmetic (len/substring/delete/insert/split/reverse) on bounded ASCII strings
+    import strkernels as S
+    sk = S.StrKernels(mf, oc, scratch.repo, seed=V.seed())
+    info["functions"][profile].update(sk.encoded_functions())
+    ssum = c14_main.string_summaries(sk, tier)
+    n, mism = S.validate(ssum, nat.eval, release)
+    info["validation_vectors"][profile + ":string-methods"] = n
+    if mism:
+        raise V.Inconclusive("engine B disagrees with the real string built-ins on %d of %d vectors (%s), first: %r" % (len(mism), n, profile, mism[0]))
+    for s_ in ssum:
+        out += S.check_summary(s_, profile, qs, timeout_ms, V.seed(), "C17")
+    # list built-ins on a shared list (len/push/remove/reverse/clear/clone/index_of/join incl. the receiver joined with itself)
+    import listkernels as L, c13_main
+    lk = L.ListKernels(mf, oc, scratch.repo, seed=V.seed())
+    info["functions"][profile].update(lk.encoded_functions())
+    lsum = c13_main.list_summaries(lk, tier)
+    n, mism = L.validate(lsum, nat.eval_raw, release)
+    info["validation_vectors"][profile + ":list-methods"] = n
+    if mism:
+        raise V.Inconclusive("engine B disagrees with the real list built-ins on %d of %d vectors (%s), first: %r" % (len(mism), n, profile, mism[0]))
+    lf = []
+    for s_ in lsum:
+        lf += L.check_summary(s_, profile, qs, timeout_ms, V.seed(), "C17")
+    # these witnesses are replayed here (their result is more than one value); run_profile skips findings already confirmed
+    c13_main.confirm(lf, nat, release)
+    for f in lf:
+        f.native = [f.native]
+        f.preconfirmed = True
+    out += lf
     ker = K.Kernels(mf, oc, scratch.repo, seed=V.seed())
     ok_ = c12_main.OptKernels(ker, mf)
     for ins, iargs, kinds in c12_main.all_instances():
